@@ -29,21 +29,31 @@ let parse_script (s : string) =
       | [a; b; c] -> { bid = int_of_string a; bchunks = int_of_string b; bman = (c = "1") }
       | _ -> failwith "blob") (items (field "blobs")) in
   let find d = List.find (fun b -> b.bid = d) blobs in
-  let rec parse_opl l =
+  let num x = n_of_int (int_of_string x) in
+  (* one API call = a list of primitive operations of the model:
+       dgc:<d>:<t1>:...  Delete(d) with AutoGC that went on to delete t1, ... (plain deletes in a row)
+       gc:<s1>:...       GC that swept s1, ...: Forget(everything else), then their plain deletes
+       reopen            oci.New on the existing directory: no mutation *)
+  let parse_call l =
     match l with
-    | ["push"; d] -> let b = find (int_of_string d) in Push (n_of_int b.bid, content_good b.bid b.bchunks, b.bman)
-    | ["pushbad"; d] -> let b = find (int_of_string d) in Push (n_of_int b.bid, content_bad b.bid b.bchunks, b.bman)
-    | ["tag"; d; r] -> Tag (n_of_int (int_of_string d), n_of_int (int_of_string r))
-    | ["untag"; r] -> Untag (n_of_int (int_of_string r))
-    | ["delete"; d] -> Delete (n_of_int (int_of_string d))
-    | ["saveindex"] -> SaveIndex
+    | ["push"; d] -> let b = find (int_of_string d) in [Push (n_of_int b.bid, content_good b.bid b.bchunks, b.bman)]
+    | ["pushbad"; d] -> let b = find (int_of_string d) in [Push (n_of_int b.bid, content_bad b.bid b.bchunks, b.bman)]
+    | ["tag"; d; r] -> [Tag (num d, num r)]
+    | ["untag"; r] -> [Untag (num r)]
+    | ["delete"; d] -> [Delete (num d)]
+    | ["saveindex"] -> [SaveIndex]
+    | "dgc" :: d :: ts -> Delete (num d) :: List.map (fun t -> Delete (num t)) ts
+    | "gc" :: ss ->
+      let swept = List.map int_of_string ss in
+      let live = List.filter (fun b -> not (List.mem b.bid swept)) blobs in
+      Forget (List.map (fun b -> n_of_int b.bid) live) :: List.map (fun x -> Delete (n_of_int x)) swept
+    | ["reopen"] -> []
     | _ -> failwith "op" in
-  let parse_op x = parse_opl (String.split_on_char ':' x) in
-  let parse_hop x =
+  let parse_hist x =
     match String.split_on_char ':' x with
-    | "crash" :: j :: rest -> Crashed (parse_opl rest, nat_of_int (int_of_string j))
-    | l -> Done (parse_opl l) in
-  (blobs, List.map parse_hop (items (field "hist")), parse_op (field "final"))
+    | "crash" :: j :: rest -> (parse_call rest, Some (int_of_string j))
+    | l -> (parse_call l, None) in
+  (blobs, List.map parse_hist (items (field "hist")), parse_call (String.split_on_char ':' (field "final")))
 
 (* digest-and-size verification: the name of the blob whose content this is, 0 for anything else *)
 let hfun blobs (c : n list) : n =
@@ -58,10 +68,10 @@ let ufirst = src_unlink_first
 
 let fname p =
   match p with
-  | FLayout -> "L" | FIndex -> "I" | FIndexTmp _ -> "IT"
+  | FLayout -> "L" | FIndex -> "I" | FIndexTmp _ -> "IT" | FLayoutTmp _ -> "LT"
   | FBlob d -> "B" ^ string_of_int (int_of_n d)
   | FIngest (d, _) -> "T" ^ string_of_int (int_of_n d)
-let dname d = match d with DBlobs -> "blobs" | DAlg -> "blobs/sha256" | DIngest -> "ingest"
+let dname d = match d with DBlobs -> "blobs" | DAlg a -> (if int_of_n a = 0 then "blobs/sha256" else "blobs/sha512") | DIngest -> "ingest"
 
 let show_step m =
   match m with
@@ -95,7 +105,8 @@ let show_content d (l : atom list) =
 let show_file p (f : file) =
   let mode = if f.fro then "ro" else "rw" in
   match p with
-  | FLayout -> (match f.fcontent with [ALayout] -> "F:L=ok" | _ -> "F:L=bad")
+  | FLayout | FLayoutTmp _ ->
+    "F:" ^ fname p ^ "=" ^ (match f.fcontent with [ALayout] -> "ok" | [] -> "empty" | _ -> "bad")
   | FIndex | FIndexTmp _ ->
     "F:" ^ fname p ^ "=" ^ (match f.fcontent with [] -> "empty" | [AIndex l] -> show_index l | _ -> "bad")
   | FBlob d | FIngest (d, _) -> "F:" ^ fname p ^ "=" ^ show_content (int_of_n d) f.fcontent ^ ":" ^ mode
@@ -104,41 +115,88 @@ let show_fs blobs ctr (fs : fS) =
   let cs = range 0 (ctr + 1) in
   let paths =
     [FLayout; FIndex] @ List.map (fun c -> FIndexTmp (nat_of_int c)) cs @
+    List.map (fun c -> FLayoutTmp (nat_of_int c)) cs @
     List.concat (List.map (fun b -> FBlob (n_of_int b.bid) :: List.map (fun c -> FIngest (n_of_int b.bid, nat_of_int c)) cs) blobs) in
   let ftoks = List.concat (List.map (fun p -> match fs.files p with Some f -> [show_file p f] | None -> []) paths) in
-  let dtoks = List.concat (List.map (fun d -> if fs.dirs d then ["D:" ^ dname d] else []) [DBlobs; DAlg; DIngest]) in
+  let dtoks = List.concat (List.map (fun d -> if fs.dirs d then ["D:" ^ dname d] else []) [DBlobs; DAlg (n_of_int 0); DAlg (n_of_int 1); DIngest]) in
   String.concat " " (List.sort compare (ftoks @ dtoks))
 
 let show_res r = match r with ROk -> "ok" | RExists -> "exists" | RNotFound -> "notfound" | RMismatch -> "mismatch"
 
+let rec nat_len l = match l with [] -> 0 | _ :: r -> 1 + nat_len r
+
+(* a call cut after j micro-steps = (Crashed o j') of ONE of its primitives after the earlier
+   ones completed (Proofs/OciCrash.v seq_cut); returns the store reopened on what was left *)
+let rec crash_call h s ops j =
+  match ops with
+  | [] -> run_hop h shuffle inplace ufirst s (Crashed (SaveIndex, nat_of_int 0))
+  | o :: r ->
+    let n = nat_len (op_steps h shuffle inplace ufirst s o) in
+    if j <= n then run_hop h shuffle inplace ufirst s (Crashed (o, nat_of_int j))
+    else crash_call h (run_op h shuffle inplace ufirst s o) r (j - n)
+
+let run_call h s ops = List.fold_left (fun s o -> run_op h shuffle inplace ufirst s o) s ops
+
+let run_hist h hist =
+  List.fold_left (fun s (ops, c) ->
+      match c with None -> run_call h s ops | Some j -> crash_call h s ops j) init hist
+
+(* the primitive the cut falls into: (state before it, it) *)
+let rec locate h s ops j =
+  match ops with
+  | [] -> None
+  | o :: r ->
+    let n = nat_len (op_steps h shuffle inplace ufirst s o) in
+    if j <= n then Some (s, o) else locate h (run_op h shuffle inplace ufirst s o) r (j - n)
+
+(* initialisation: final=init, no history: the first oci.New on an empty directory *)
+let is_init sc =
+  let n = String.length sc in n >= 10 && String.sub sc (n - 10) 10 = "final=init"
+let init_steps () = new_steps shuffle inplace src_layout_inplace empty_fs (nat_of_int 0)
+let rec take n l = if n <= 0 then [] else match l with [] -> [] | x :: r -> x :: take (n - 1) r
+
 let () =
   iter_lines (fun l ->
     match split_ws l with
+    | id :: "S" :: sc :: _ when is_init sc ->
+      Printf.printf "%s\n" (String.trim (Printf.sprintf "%s STEPS %s" id
+        (String.concat " " (List.map show_step (init_steps ())))))
+    | id :: "K" :: j :: sc :: _ when is_init sc ->
+      let fsk = apply (take (int_of_string j) (init_steps ())) empty_fs in
+      let fs2 = apply (new_steps shuffle inplace src_layout_inplace fsk (nat_of_int 1)) fsk in
+      let ok = new_okb fsk && layout_okb fs2 && (match read_index fs2 with Some [] -> true | _ -> false) in
+      Printf.printf "%s STATE %s%s\n" id (show_fs [] 1 fsk) (if ok then "" else " MODEL-NOT-RECOVERABLE")
+    | id :: "R" :: sc :: _ when is_init sc -> Printf.printf "%s RES ok\n" id
     | id :: "S" :: sc :: _ ->
       let (blobs, hist, fin) = parse_script sc in
       let h = hfun blobs in
-      let s = runc h shuffle inplace ufirst hist init in
-      Printf.printf "%s\n" (String.trim (Printf.sprintf "%s STEPS %s" id (String.concat " " (List.map show_step (op_steps h shuffle inplace ufirst s fin)))))
+      let s = run_hist h hist in
+      Printf.printf "%s\n" (String.trim (Printf.sprintf "%s STEPS %s" id
+        (String.concat " " (List.map show_step (steps_seq h shuffle inplace ufirst s fin)))))
     | id :: "K" :: j :: sc :: _ ->
       let (blobs, hist, fin) = parse_script sc in
       let h = hfun blobs in
-      let s = runc h shuffle inplace ufirst hist init in
-      let fsk = crash_fs h shuffle inplace ufirst s fin (nat_of_int (int_of_string j)) in
-      let s1 = run_op h shuffle inplace ufirst s fin in
+      let s = run_hist h hist in
+      let j = int_of_string j in
+      let fsk = crash_seq h shuffle inplace ufirst s fin (nat_of_int j) in
       let univ = List.map (fun b -> n_of_int b.bid) blobs in
-      let rec_ok = recoverableb h univ s.sfs fsk s1.sfs in
-      Printf.printf "%s STATE %s%s\n" id (show_fs blobs (int_of_nat s.sctr) fsk)
+      let rec_ok =
+        match locate h s fin j with
+        | Some (sj, o) -> recoverableb h univ sj.sfs fsk (run_op h shuffle inplace ufirst sj o).sfs
+        | None -> let s1 = run_call h s fin in recoverableb h univ s1.sfs fsk s1.sfs in
+      Printf.printf "%s STATE %s%s\n" id (show_fs blobs (int_of_nat s.sctr + nat_len fin + 1) fsk)
         (if rec_ok then "" else " MODEL-NOT-RECOVERABLE")
     | id :: "R" :: sc :: _ ->
       let (blobs, hist, fin) = parse_script sc in
       let h = hfun blobs in
-      let rec go s ops acc =
-        match ops with
+      let res s ops = match ops with [] -> "ok" | o :: _ -> show_res (op_res h s o) in
+      let rec go s calls acc =
+        match calls with
         | [] -> List.rev acc
-        | Done o :: r -> go (run_op h shuffle inplace ufirst s o) r (show_res (op_res h s o) :: acc)
-        | (Crashed (_, _) as x) :: r ->
+        | (ops, None) :: r -> go (run_call h s ops) r (res s ops :: acc)
+        | (ops, Some j) :: r ->
           (* results of the processes that were killed are not part of the observation *)
-          go (run_hop h shuffle inplace ufirst s x) r [] in
-      Printf.printf "%s RES %s\n" id (String.concat " " (go init (hist @ [Done fin]) []))
+          go (crash_call h s ops j) r [] in
+      Printf.printf "%s RES %s\n" id (String.concat " " (go init (hist @ [(fin, None)]) []))
     | [] -> ()
     | _ -> Printf.printf "BADLINE %s\n" l)
